@@ -651,6 +651,10 @@ func (in *Interp) iterate(v Value) (keys, vals []Value) {
 			i++
 		}
 	case int64:
+		// ranging over a huge int is not materialised: it is beyond the step budget anyway
+		if x > 4000 {
+			in.cost(4001)
+		}
 		for i := int64(0); i < x; i++ {
 			keys = append(keys, i)
 			vals = append(vals, i)
